@@ -265,6 +265,9 @@ def _run_structural(ctx):
     r5 = ctx.rule("R5", "protected paths and outputs are normalised by the same function on every path")
     from .c03 import rule_norm_path
     rule_norm_path(ctx, r5)
+    # what Target.protected() and Target.flattened_outputs() yield for the declared names (taken literally, whatever characters they contain)
+    from .c01 import rule_flatten
+    rule_flatten(ctx, r5)
     # the path that is deleted is the DECLARED path: normalisation is lexical.  Resolving symbolic links would make clean remove the file a link points to
     # (a shared raw file, another project's data) and leave the declared link behind
     seen, todo, n_fn = set(), [idx.maybe_func("gwf.core:Target.flattened_outputs"), idx.maybe_func("gwf.core:Target.protected")], 0
